@@ -129,6 +129,14 @@ def bgd_random(rng, n):
         use = rng.random() < 0.4
         val = rng.choice(["none", "none", "all"])
         cases.append({"id": "bgd-r%05d" % i, "family": "bgd-random-" + mode, "S": bgd_shader(decls, use=use, tys=tys), "opts": opts(validate=val)})
+    # many groups: two-digit group numbers (orders by text instead of by number), dense and with one group missing
+    for j, n_groups in enumerate([9, 10, 11, 12, 16, 23, 32]):
+        for miss in (None, 1, n_groups - 2):
+            decls = [{"g": g, "b": b} for g in range(n_groups) if g != miss for b in ((0,) if g % 3 else (1, 0))]
+            rng.shuffle(decls)
+            for val in ("none", "all"):
+                cases.append({"id": "bgd-many-%02d-%s-%s" % (n_groups, "dense" if miss is None else "gap%d" % miss, val), "family": "bgd-many-groups",
+                              "S": bgd_shader(decls, use=(j % 2 == 0)), "opts": opts(validate=val)})
     return cases
 
 
